@@ -39,6 +39,9 @@ pub struct SynthSpec {
 pub enum Step {
     Install { t: u8, kind: Kind, k: u8 },
     Call { t: u8 },
+    /// the owner of a synthetic target's code pages makes them read+execute again (what a code
+    /// generator does after emitting): nothing the injector may rely on stays writable
+    Reseal { t: u8 },
 }
 
 #[derive(Serialize, Deserialize, Clone, Debug, Hash, PartialEq, Eq)]
@@ -155,6 +158,10 @@ pub struct LifeObs {
     /// executable pages the harness mapped before this lifetime on released trampoline addresses
     #[serde(default)]
     pub squat_pages: Vec<u64>,
+    /// (address, length) of mprotect calls by which the library took PROT_EXEC away from memory
+    /// that is not one of its own trampolines
+    #[serde(default)]
+    pub exec_removed: Vec<(u64, u64)>,
     pub bystanders: Vec<(String, u64)>,
     pub orig_runs: u64,
 }
@@ -465,6 +472,19 @@ pub fn execute(c: &HistCase, opts: &Opts) -> HistObs {
                             so.log = log_events(&evs);
                         }
                     }
+                    Step::Reseal { t } => {
+                        let ti = *t as usize % n;
+                        so.kind = "reseal".into();
+                        so.t = ti;
+                        let si = ti.wrapping_sub(n_real);
+                        if ti >= n_real && si < c.synth.len() && c.synth[si].shape != 5 {
+                            let base = tg[ti].addr & !0xFFF;
+                            // (both pages of the arena; the first one is where the entry lives)
+                            unsafe { ip::sys_mprotect(base, PAGE, libc::PROT_READ | libc::PROT_EXEC) };
+                            unsafe { ip::sys_mprotect(base + PAGE, PAGE, libc::PROT_READ | libc::PROT_EXEC) };
+                            so.kind = "reseal/done".into();
+                        }
+                    }
                     Step::Call { t } => {
                         let ti = *t as usize % n;
                         so.kind = "call".into();
@@ -472,6 +492,12 @@ pub fn execute(c: &HistCase, opts: &Opts) -> HistObs {
                         crate::worker::phase("call");
                         let exp = top[ti].and_then(|x| x.1);
                         careful_call(&tg[ti], exp, o.text, &pristine[ti], &mut so);
+                    }
+                }
+                for (a, l) in ip::noexec_take() {
+                    // (the injector's own trampolines are its own business)
+                    if !kept.iter().any(|g| a >= (g.0 & !0xFFF) && a < (g.0 & !0xFFF) + 4096) {
+                        lo.exec_removed.push((a, l));
                     }
                 }
                 if opts.snapshots && detailed {
@@ -514,6 +540,11 @@ pub fn execute(c: &HistCase, opts: &Opts) -> HistObs {
                 }
             }
             last_tramps = kept.clone();
+            for (a, l) in ip::noexec_take() {
+                if !kept.iter().any(|g| a >= (g.0 & !0xFFF) && a < (g.0 & !0xFFF) + 4096) {
+                    lo.exec_removed.push((a, l));
+                }
+            }
             let evs: Vec<ip::Ev> = ip::log_snapshot().into_iter().skip(mark).collect();
             for e in &evs {
                 if e.kind == ip::Kind::Munmap {
@@ -615,6 +646,7 @@ pub fn strategy_all(max_lifetimes: usize, max_steps: usize, synth_bias_last_slot
     let step = prop_oneof![
         3 => (0u8..12, kind_strategy(), 0u8..4).prop_map(|(t, kind, k)| Step::Install { t, kind, k }),
         2 => (0u8..12).prop_map(|t| Step::Call { t }),
+        1 => (9u8..14).prop_map(|t| Step::Reseal { t }),
     ];
     let rw = if rewrites { prop::option::weighted(0.25, (any::<u8>(), any::<u16>())).boxed() } else { Just(None).boxed() };
     // a "re-fake run": one function faked 3-5 times in a row from a palette of two kinds (so that
@@ -645,6 +677,7 @@ pub fn strategy_all(max_lifetimes: usize, max_steps: usize, synth_bias_last_slot
                     .map(|s| match s {
                         Step::Install { t, kind, k } => Step::Install { t: focus.wrapping_add(t % 4), kind, k },
                         Step::Call { t } => Step::Call { t: focus.wrapping_add(t % 4) },
+                        Step::Reseal { t } => Step::Reseal { t: focus.wrapping_add(t % 4) },
                     })
                     .collect(),
                 exit: l.exit,
